@@ -6,10 +6,11 @@ fixed hash seed does not remove) and compares, molecule by molecule, the sha256 
 Worker: for each corpus molecule (fresh parse)
   * `first`  = every observable on the freshly parsed molecule (nothing cached),
   * `second` = the same observables again on the same object (cached; the three expensive transformations that work on their own
-    copy - canonicalize, standardize, tautomers - are evaluated on `first` and `copy-before` only),
+    copy - canonicalize, standardize, tautomers - are evaluated on `first` and on every 4th `copy-before` only),
   * `copy-before` = on a copy made BEFORE any cache was filled, evaluated in REVERSE order (a pure function of the molecule does not
     care about evaluation order; a cache written as a side effect of another observable does),
   * `copy-after`  = on a copy made AFTER all caches were filled,
+  * `isolated`    = each observable alone on its own pristine copy (nothing evaluated before it),
   and reports every in-process difference.  Pack bytes are included whenever the de-cythonised modules can be injected."""
 import hashlib
 import itertools
@@ -19,7 +20,7 @@ import subprocess
 import sys
 
 RULE = ('non-trivial = every molecule (all observables are non-constant functions of the structure); keys are (SMILES, observable); '
-        'evaluations = molecule x observable x process (+ 3 in-process re-evaluations per process)')
+        'evaluations = molecule x observable x process (+ 4 in-process re-evaluations per process)')
 
 QUERIES = ('[C;r6]-[N,O]', 'c:c-[N,O]', '[C;z2]=O', '[N,O;h1,h2]')
 TAUT_MAX_ATOMS = 45
@@ -127,10 +128,14 @@ def worker(total, start, n):
         first = _evaluate(m, obs)
         second = _evaluate(m, obs, cheap_only=True)
         after = m.copy()
-        cb = _evaluate(before, obs, reverse=True)
+        cb = _evaluate(before, obs, reverse=True, cheap_only=bool(i % 4))   # expensive transformations on every 4th copy
         ca = _evaluate(after, obs, cheap_only=True)
+        iso = {}
+        for ob in obs:           # every cheap observable alone on its own pristine copy: nothing else has been evaluated before it
+            if ob[0] not in EXPENSIVE:
+                iso.update(_evaluate(before.copy(), [ob]))
         internal = []
-        for kind, other in (('cached', second), ('copy-before', cb), ('copy-after', ca)):
+        for kind, other in (('cached', second), ('copy-before', cb), ('copy-after', ca), ('isolated', iso)):
             for name in other:
                 if first[name][0] != other[name][0]:
                     internal.append([kind, name, first[name][1], other[name][1]])
@@ -143,17 +148,21 @@ def bounded(run):
     from bounded import domains as D
     quick = run.tier == 'quick'
     total = 200 if quick else 2000
+    if os.environ.get('VERIF_B19_TOTAL'):    # self-test knob (mutation runs): smaller domain, stated in the bound below
+        total = int(os.environ['VERIF_B19_TOTAL'])
     r = D.rnd('c19-seeds')
     seeds = ['0', '0', '1', str(r.randrange(2, 2 ** 32 - 1)), str(r.randrange(2, 2 ** 32 - 1))]
-    nchunks = max(1, min(env.NPROC // len(seeds), 8 if not quick else 4, total))
-    size = -(-total // nchunks)
+    size = 25 if quick else 100          # molecules per worker process; the semaphore below balances the load over NPROC slots
+    nchunks = -(-total // size)
     jobs = []
     base = dict(os.environ, VERIF_REPO=env.REPO, VERIF_SEED=str(env.SEED), PYTHONPATH=env.VERIF)
     run.assume('third-party code (numpy, lazy_object_proxy, CachedMethods shim) is deterministic',
                'a second process with the same hash seed stands for "another interpreter process" (address-space layout, import order)',
                'pack bytes come from the mechanically de-cythonised .pyx modules (cyx) when they can be injected')
     run.bound(f'{total} corpus molecules (seeded sample) x {len(seeds)} fresh processes with PYTHONHASHSEED {seeds} x '
-              f'4 evaluations (first, cached, copy made before caching evaluated in reverse order, copy made after caching); '
+              f'5 evaluations (first, cached, copy made before caching evaluated in reverse order, copy made after caching, every observable '
+              f'alone on a pristine copy; canonicalize / '
+              f'standardize / tautomers on the first evaluation and on every 4th copy); '
               f'tautomer enumeration: first 5, molecules <= {TAUT_MAX_ATOMS} atoms; unfiltered mappings: first 50')
     # at most NPROC workers at a time
     queue = [(si, seed, c * size, min(size, total - c * size)) for si, seed in enumerate(seeds) for c in range(nchunks) if c * size < total]
@@ -223,7 +232,7 @@ def bounded(run):
                               f'(PYTHONHASHSEED={seeds[si]}): {x} vs {y}', witness={'smiles': s, 'observable': name, 'kind': kind, 'hashseed': seeds[si]},
                               native={'first': x, kind: y})
             for name in names:
-                run.case(4, key=(s, name) if si == 0 else None)
+                run.case(5, key=(s, name) if si == 0 else None)
                 if si and a['d'][name][0] != b['d'][name][0]:
                     run.violation(f'nondeterminism:{name}:{s}', f'{name} of {s} differs between processes: PYTHONHASHSEED={seeds[0]} gives '
                                   f'{a["d"][name][1]}, PYTHONHASHSEED={seeds[si]} (process {si}) gives {b["d"][name][1]}',
